@@ -618,6 +618,7 @@ func (dec *Decoder) LiteralReader() (lit *LiteralReader, nonSync, ok bool) {
 	if !dec.ExpectSpecial('}') || !dec.ExpectCRLF() {
 		return nil, false, false
 	}
+	dec.crlf = false // the command continues after the literal
 	dec.literal = true
 	dec.literalNonSync = nonSync
 	lit = &LiteralReader{
